@@ -61,13 +61,16 @@ theorem stepRead_result_indep {α} (z : α) (lut : List LutRow) (frames : List (
     (stepRead z lut frames rows cols th tw full am q st).2 = (stepRead z lut frames rows cols th tw full am q none).2 := by
   unfold stepRead
   rw [tempSetup_forgets q.data st]
-  split
-  · rfl
-  · split
+  by_cases hl : q.labelmap = true
+  · simp only [hl, if_true]
+  · simp only [hl, Bool.false_eq_true, if_false]
+    split
     · rfl
     · split
       · rfl
-      · rfl
+      · split
+        · rfl
+        · rfl
 
 theorem runHistory_indep {α} (z : α) (lut : List LutRow) (frames : List (Img α)) (rows cols th tw : Int) (full am : Bool) :
     ∀ (steps : List ChanRead) (st : TempState),
@@ -115,27 +118,30 @@ theorem stepRead_state_cases {α} (z : α) (lut : List LutRow) (frames : List (I
     (stepRead z lut frames rows cols th tw full am q st).1 = st ∨ (stepRead z lut frames rows cols th tw full am q st).1 = none ∨
     (stepRead z lut frames rows cols th tw full am q st).1 = some q.data ∨ (stepRead z lut frames rows cols th tw full am q st).1 = some [] := by
   unfold stepRead
-  split
-  · left; rfl
-  · split
+  by_cases hl : q.labelmap = true
+  · left; simp only [hl, if_true]
+  · simp only [hl, Bool.false_eq_true, if_false]
+    split
     · left; rfl
     · split
       · left; rfl
-      · rcases tempSetup_cases q.data st with h | h
-        · rw [h]
-          simp only
-          split
-          · by_cases hc : tempTableCleanupOnError = true
+      · split
+        · left; rfl
+        · rcases tempSetup_cases q.data st with h | h
+          · rw [h]
+            simp only
+            split
+            · by_cases hc : tempTableCleanupOnError = true
+              · right; left
+                simp only [hc, if_true]
+                rw [tempCleanup_exact]
+              · right; right; left
+                simp only [hc, if_false, Bool.false_eq_true]
             · right; left
-              simp only [hc, if_true]
               rw [tempCleanup_exact]
-            · right; right; left
-              simp only [hc, if_false, Bool.false_eq_true]
-          · right; left
-            rw [tempCleanup_exact]
-        · rw [h]
-          right; right; right
-          rfl
+          · rw [h]
+            right; right; right
+            rfl
 
 
 /-! ## The channel axis -/
@@ -352,7 +358,7 @@ theorem stepRead_stacked_spec {α} (z : α) (Mseg : Int → Img α) (lut : List 
     (fun _ _ _ => z) outk (join_keys_in_range sel segs) (fun k hk0 hk1 => (houtk k hk0 hk1).1)
   refine ⟨out, ?_, ?_⟩
   · unfold stepRead stackedRequest
-    simp only [hu, Bool.not_true, Bool.false_eq_true, if_false, hstd, expectedCount_eq]
+    simp only [Bool.false_eq_true, if_false, hu, Bool.not_true, hstd, expectedCount_eq]
     rw [tempSetup_exact _ st (stackedData_keys_nodup segs)]
     simp only [stackedBody, Bool.not_true, Bool.false_and, Bool.false_eq_true, if_false]
     rw [if_neg (by omega)]
